@@ -131,6 +131,24 @@ def run_plan(pid, tier, seed, extra_cov=None, t0=None):
             trans += gen
             mc_summ.append(dict(config="Aba Guard=%s (F24 %s)" % (guard, "counterexample" if not expect_ok else "excluded"),
                                 states=st, transitions=gen, ok=ok, wall_s=0))
+        if tier == "thorough":
+            # the same statement for every Values / MaxSyncs: spec/AbaProof.tla is a TLAPS proof that the epoch guard
+            # makes LayoutKnowledgeCurrent inductive (about the proposed repair, so its outcome is reported, not judged)
+            import shutil, subprocess, tempfile, re as _re
+            d = tempfile.mkdtemp(prefix="nomt-verif-tlaps-", dir="/var/tmp")
+            try:
+                for f in ("Aba.tla", os.path.join("proofs", "AbaProof.tla")):
+                    shutil.copy(os.path.join(C.SPEC, f), d)
+                pr = subprocess.run(["timeout", "600", "tlapm", "--threads", "4", "AbaProof.tla"], cwd=d,
+                                    stdout=subprocess.PIPE, stderr=subprocess.STDOUT, text=True)
+                m = _re.search(r"All (\d+) obligations proved", pr.stdout)
+                C.log("[%s] TLAPS AbaProof: %s" % (pid, m.group(0) if m else "not proved (rc=%d)" % pr.returncode))
+                mc_summ.append(dict(config="AbaProof (TLAPS, unbounded): " + (m.group(0) if m else "not proved"),
+                                    states=0, transitions=0, ok=bool(m), wall_s=0))
+            except OSError as e:
+                C.log("[%s] TLAPS AbaProof not run: %s" % (pid, e))
+            finally:
+                shutil.rmtree(d, ignore_errors=True)
     if pid == "C19" and not os.environ.get("VERIF_DEBUG_SKIP_MC"):
         # the free list of the value files has its own transcription (nothing lost, nothing handed out twice)
         from . import freelist
